@@ -442,6 +442,27 @@ impl<'a> IrCodegen<'a> {
         }
     }
 
+    /// Create the lowering context for a dependency module.
+    ///
+    /// Lowering needs the typechecker's expression types (operand kinds for numeric promotion, the object type that
+    /// selects the indexing helper, ...) for dependency modules just as for the main module. The module is checked
+    /// against the other registered modules; if that check does not succeed the module is lowered best-effort
+    /// without type information, as before.
+    fn lowering_for_module(&self, module_name: &str, program: &Program) -> AstLowering {
+        use crate::frontend::typechecker::TypeChecker;
+        let mut tc = TypeChecker::new();
+        let deps: Vec<(&str, &Program)> = self
+            .dependency_modules
+            .iter()
+            .filter(|(name, _)| *name != module_name)
+            .map(|(name, ast)| (*name, *ast))
+            .collect();
+        match tc.check_with_imports(program, &deps) {
+            Ok(()) => AstLowering::new_with_type_info(tc.type_info().clone()),
+            Err(_) => AstLowering::new(),
+        }
+    }
+
     /// Generate Rust code for a dependency module (not the main module)
     ///
     /// **Note**: This is a convenience method that returns error comments on failure.
@@ -459,9 +480,9 @@ impl<'a> IrCodegen<'a> {
     ///
     /// Returns `GenerationError::Lowering` if AST lowering fails, or
     /// `GenerationError::Emission` if IR emission fails.
-    pub fn try_generate_module(&mut self, _module_name: &str, program: &Program) -> Result<String, GenerationError> {
+    pub fn try_generate_module(&mut self, module_name: &str, program: &Program) -> Result<String, GenerationError> {
         // Use the IR pipeline for module generation too
-        let mut lowering = AstLowering::new();
+        let mut lowering = self.lowering_for_module(module_name, program);
         let ir_program = lowering.lower_program(program)?;
 
         // Best-effort: treat registered dependency module names as internal roots.
@@ -552,7 +573,7 @@ impl<'a> IrCodegen<'a> {
         let mut modules = HashMap::new();
         for (name, ast) in &self.dependency_modules {
             if module_names.contains(name) {
-                let mut lowering = AstLowering::new();
+                let mut lowering = self.lowering_for_module(name, ast);
                 let ir = lowering.lower_program(ast)?;
                 let use_emit_service = env::var("INCAN_EMIT_SERVICE").ok().as_deref() == Some("1");
                 let module_code = if use_emit_service {
@@ -637,7 +658,7 @@ impl<'a> IrCodegen<'a> {
             for path in module_paths {
                 let path_name = path.join("_");
                 if path_name == *name {
-                    let mut lowering = AstLowering::new();
+                    let mut lowering = self.lowering_for_module(name, ast);
                     let ir = lowering.lower_program(ast)?;
                     let use_emit_service = env::var("INCAN_EMIT_SERVICE").ok().as_deref() == Some("1");
                     let module_code = if use_emit_service {
